@@ -273,8 +273,6 @@ impl Var {
 pub uninterp spec fn rc_count<T: ?Sized, A: std::alloc::Allocator>(r: &Rc<T, A>) -> usize;
 pub assume_specification<T: ?Sized, A: std::alloc::Allocator>[ Rc::<T, A>::strong_count ](this: &Rc<T, A>) -> (r: usize)
     ensures r == rc_count(this);
-#[verifier::external_body]
-pub fn vx_forbidden() requires false { }
 
 #[verifier::external_body]
 pub struct DeadVarsGuard { _p: u8 }
@@ -322,8 +320,8 @@ impl PublicVar {
 //@ name: drop
 //@ as: fn drop__other_handles_alive(&mut self)
 //@ tracing: yes
-//@ rule R8: `dead_vars.push(self.internal.erased());` => `vx_forbidden();` x*
-//@ rule R8: `self.internal.break_rc_cycle();` => `vx_forbidden();` x*
+//@ rule R8 re: `\w+\s*\.\s*push\(\s*self\s*\.\s*internal\s*\.\s*erased\(\)\s*\)` => `vx_forbidden()` x*
+//@ rule R8 re: `self\s*\.\s*internal\s*\.\s*break_rc_cycle\(\)` => `vx_forbidden()` x*
 //@ props: C08 C13
 //@ contract:
 //@|     requires rc_count(&old(self).sentinel) >= 2,
@@ -337,8 +335,8 @@ impl PublicVar {
 //@ as: fn drop__last_handle_parks_the_variable(&mut self)
 //@ tracing: yes
 //@ panics: diverge
-//@ rule R8: `dead_vars.push(self.internal.erased());` => `dead_vars.push__reached(self.internal.erased());` x*
-//@ rule R8: `self.internal.break_rc_cycle();` => `vx_forbidden();` x*
+//@ rule R8 re: `(\w+)\s*\.\s*push\(\s*self\s*\.\s*internal\s*\.\s*erased\(\)\s*\)` => `\1.push__reached(self.internal.erased())` x*
+//@ rule R8 re: `self\s*\.\s*internal\s*\.\s*break_rc_cycle\(\)` => `vx_forbidden()` x*
 //@ props: C08 C13
 //@ contract:
 //@|     requires rc_count(&old(self).sentinel) <= 1, state_alive(&old(self).internal.state),
@@ -352,8 +350,8 @@ impl PublicVar {
 //@ as: fn drop__last_handle_after_the_state_breaks_the_cycle(&mut self)
 //@ tracing: yes
 //@ panics: diverge
-//@ rule R8: `dead_vars.push(self.internal.erased());` => `vx_forbidden();` x*
-//@ rule R8: `self.internal.break_rc_cycle();` => `self.internal.break_rc_cycle__reached();` x*
+//@ rule R8 re: `\w+\s*\.\s*push\(\s*self\s*\.\s*internal\s*\.\s*erased\(\)\s*\)` => `vx_forbidden()` x*
+//@ rule R8 re: `self\s*\.\s*internal\s*\.\s*break_rc_cycle\(\)` => `self.internal.break_rc_cycle__reached()` x*
 //@ props: C08 C13
 //@ contract:
 //@|     requires rc_count(&old(self).sentinel) <= 1, !state_alive(&old(self).internal.state),
